@@ -108,10 +108,32 @@ func (s *Sim) noteCacheAged(name string, out bool) {
 	}
 }
 
+// askedSinceAged: names the receiver was asked about (poll, or "which of these
+// parts do you have") while their delivery was known only from the log.
+var askedSinceAged = map[*Sim]map[string]bool{}
+
+func (s *Sim) noteAsked(name string) {
+	s.mu.Lock()
+	defer s.mu.Unlock()
+	if !agedOut[s][name] {
+		return
+	}
+	m := askedSinceAged[s]
+	if m == nil {
+		for k := range askedSinceAged {
+			delete(askedSinceAged, k)
+		}
+		m = map[string]bool{}
+		askedSinceAged[s] = m
+	}
+	m[name] = true
+}
+
 // deliveryKnownOnlyFromLog: the receiver has dropped its in-memory record of
-// this delivery and nothing has made it read the log again since.
+// this delivery, nothing has made it read the log again since, and it has not
+// been asked about the file either (a question must make it read the log).
 func (s *Sim) deliveryKnownOnlyFromLog(name string) bool {
 	s.mu.Lock()
 	defer s.mu.Unlock()
-	return agedOut[s][name]
+	return agedOut[s][name] && !askedSinceAged[s][name]
 }
